@@ -2,6 +2,7 @@ package __PKG__
 
 import (
 	"context"
+	"sync"
 )
 
 // ---- two Broker calls as two goroutines; every context switch at a lock operation is a solver-visible choice ----
@@ -164,16 +165,35 @@ func H_C04_mutators_interleaved() {
 
 // C04/C07: a Send racing with registration / removal / overwrite of pipeline p delivers to p zero or one time,
 // and while p is being overwritten by a new version exactly one version sees the event.
+// yNode: like cNode, with a lock operation inside Process, so that "a Send is inside this node" is a point at which the
+// other goroutine may run
+type yNode struct {
+	typ   NodeType
+	mu    sync.Mutex
+	procs int
+}
+
+func (n *yNode) Process(ctx context.Context, e *Event) (*Event, error) {
+	n.mu.Lock()
+	n.procs++
+	n.mu.Unlock()
+	return e, nil
+}
+func (n *yNode) Reopen() error  { return nil }
+func (n *yNode) Type() NodeType { return n.typ }
+
 func H_C07_send_vs_overwrite() {
 	r := &iState{ctx: &vCtx{}}
 	b, _ := NewBroker()
 	r.b = b
-	f := &cNode{typ: NodeTypeFormatter}
-	v1, v2 := &cNode{typ: NodeTypeSink}, &cNode{typ: NodeTypeSink}
-	b.RegisterNode("f", f)
+	// two complete versions of pipeline p: (f1, v1) and (f2, v2)
+	f1, f2 := &yNode{typ: NodeTypeFormatter}, &yNode{typ: NodeTypeFormatter}
+	v1, v2 := &yNode{typ: NodeTypeSink}, &yNode{typ: NodeTypeSink}
+	b.RegisterNode("f", f1)
 	b.RegisterNode("s", v1)
 	b.RegisterPipeline(Pipeline{PipelineID: "p", EventType: "t", NodeIDs: []NodeID{"f", "s"}})
-	// the overwriting call re-registers the sink id with a new node object, then the pipeline
+	// the overwriting call re-registers both ids with new node objects, then the pipeline
+	b.RegisterNode("f", f2)
 	b.RegisterNode("s", v2)
 	var st Status
 	var err error
@@ -184,11 +204,13 @@ func H_C07_send_vs_overwrite() {
 	verifInterleave(false)
 	verifAssert(err == nil, "C07.overwrite-vs-send.no-error")
 	verifAssert(v1.procs+v2.procs == 1, "C07.overwrite-vs-send.exactly-one-version")
+	// processed by one version as a whole: never the head of one and the tail of the other
+	verifAssert(f1.procs == v1.procs && f2.procs == v2.procs, "C07.overwrite-vs-send.one-version-end-to-end")
 	verifAssert(len(st.complete) == 1, "C07.overwrite-vs-send.one-completion")
 	// once the overwriting call has returned only the new version is used
 	b.Send(r.ctx, "t", "payload")
-	verifAssert(v2.procs >= 1, "C07.overwrite.new-version-after-return")
-	verifAssert(v1.procs <= 1, "C07.overwrite.old-version-not-used-after-return")
+	verifAssert(v2.procs >= 1 && f2.procs >= 1, "C07.overwrite.new-version-after-return")
+	verifAssert(v1.procs <= 1 && f1.procs <= 1, "C07.overwrite.old-version-not-used-after-return")
 	verifReach("C07.overwrite-vs-send.end")
 }
 
